@@ -21,6 +21,12 @@ CHECKS = {
         design="7/C04",
         technique=E2,
     ),
+    "C03": dict(
+        text="For every enumerated code the advertised length/dimension/rate equal the shape facts of the published G, the TRUE minimum distance (exact enumeration of the row space of G, or MacWilliams via the dual) is >= the advertised one and equal where an exact value is documented; cyclic/BCH codes: g | X^n+1, g.h = X^n+1, deg g = n-k, every cyclic shift of every generator row stays in the row space, every row is a multiple of g, alpha^1..alpha^(delta-1) are roots of the BCH generator and its degree is the lcm degree; perfect codes meet the sphere-packing bound with equality. For k<=8 (thorough 11) the distance bound is additionally proved for all messages through the real forward() (z3). Closed obligations are decided exactly (ground), not sampled.",
+        note="Trusted: vk.ground (exact GF(2)/GF(2)[x] kernel independent of /repo), C01's contract forward(x)==x.G linking G to the encoder. Bound: the configuration grid (the property's own size bounds in thorough tier). Known finding: the binary Reed-Solomon-style construction has true distance 1.",
+        design="7/C03",
+        technique="contracts as closed obligations on the objects the real constructors build, decided exactly by the ground GF(2) kernel (complete enumeration); distance clause also proved symbolically through the real forward() for small k",
+    ),
 }
 
 NOT_YET = {}
